@@ -16,9 +16,15 @@ SEEDS = [
     "start: expr NEWLINE\nexpr: expr '+' term | term\nterm: term '*' NUMBER | NUMBER\n",
     "start: a a NEWLINE | a NEWLINE\na: NAME &NAME | NAME\n",
     "start: foo NEWLINE\nfoo: bar 'A' | 'B'\nbar: (foo 'C' | foo 'K') ';' | 'D'\n",
+    # a helper of a left-recursive cycle whose FIRST alternative is nullable by analysis (a lookahead and a star) and whose
+    # later alternative re-enters the leader behind an optional item: its result changes while the seed grows
+    "start: e=expr NEWLINE { e }\nexpr: l=expr '+' t=atom { foo(l, t) } | q=query { q } | a=atom { a }\n"
+    "query: &'!' b='!'* { foo(b) } | s=['-'] e=expr '?' { foo(s, e) }\natom: NAME | NUMBER\n",
+    "start: e NEWLINE\ne: e '+' NAME | q | NAME\nq: &NUMBER NUMBER* | ['-'] e '?'\n",
 ]
 EXTRA_INPUTS = ["1 * 2 + 3\n", "1 + 2 * 3 + 4\n", "1 * 2 * 3\n", "B C ; A C ; A\n", "B C ; A\n", "D A K ; A\n", "+ x\n", "+ x y\n",
-                "- 1\n", "+ 1 2\n", "x x x x\n", "1 + 2 + 3 + 4\n"]
+                "- 1\n", "+ 1 2\n", "x x x x\n", "1 + 2 + 3 + 4\n",
+                "a ?\n", "a + b ?\n", "a + b ? + c\n", "a ? ?\n", "- a ?\n", "a + ?\n", "! !\n", "1 1\n", "a + b ? ?\n"]
 KF_VERBOSE = {"grammar": "start: NAME r NEWLINE\nr: invalid_z\ninvalid_z: 'zz'\n", "input": "a b\n"}
 # error mode: a result cached while a *_without_invalid rule had switched error mode off is reused after it is back on
 KF_ERRMODE = {"grammar": "start: a_without_invalid 'z' NEWLINE | b NEWLINE\na_without_invalid: x 'q'\nb: x 'w'\n"
